@@ -17,7 +17,7 @@ PID = "C20"
 LEVEL = "fault_enumeration"
 
 ALPHABET = {
-    "nr_exp": [2, 3, 4, 5], "ntheta_exp": [-1, 2, 3, 4, 5, 6], "aniso": [0, 1, 2], "div2": [0, 1], "R0": [1e-5, 0.1], "Rmax": [1.3, 1.0, 2.5], "dirbc": [0, 1],
+    "nr_exp": [2, 3, 4, 5], "ntheta_exp": [-1, 2, 3, 4, 5, 6], "aniso": [0, 1, 2, 3, 4, 5], "div2": [0, 1], "R0": [1e-5, 0.1], "Rmax": [1.3, 1.0, 2.5], "dirbc": [0, 1],
     "fmg": [0, 1], "fmg_it": [0, 1, 2, 3], "fmg_cycle": [0, 1, 2], "extr": [0, 1, 2, 3], "maxlev": [-1, 1, 2, 3, 10], "pre": [0, 1, 2],
     "post": [0, 1, 2], "cycle": [0, 1, 2], "maxit": [0, 1, 2, 150], "norm": [0, 1, 2], "abstol": [-1.0, 0.0, 1e-8, 1e-3],
     "reltol": [-1.0, 0.0, 1e-8, 1e-3], "threads": [1, 2, 4, 16], "tfactor": [1.0, 0.5, 0.1], "strat": [0, 1], "cc": [0, 1], "cg": [0, 1],
@@ -28,7 +28,7 @@ PAIRS = [dict(abstol=-1.0, reltol=-1.0), dict(abstol=-1.0, reltol=-1.0, maxit=3)
          dict(maxlev=2, fmg=1, extr=1), dict(nr_exp=3, ntheta_exp=3), dict(nr_exp=3, ntheta_exp=3, extr=1, fmg=1), dict(nr_exp=2, ntheta_exp=3),
          dict(nr_exp=3, ntheta_exp=2), dict(abstol=-1.0, reltol=-1.0, maxit=0), dict(threads=16, tfactor=0.1), dict(maxit=1, exact=1),
          dict(abstol=-1.0, reltol=-1.0, extr=3, maxit=5), dict(verbose=1, extr=3), dict(verbose=2, maxit=0), dict(verbose=1, exact=0),
-         dict(verbose=2, fmg=1, extr=1), dict(verbose=1, abstol=-1.0, reltol=-1.0), dict(paraview=1, exact=0), dict(paraview=1, maxit=0), dict(paraview=1, maxlev=2, fmg=1), dict(gridfile=2, aniso=2), dict(gridfile=2, div2=1), dict(gridfile=1, paraview=1)]
+         dict(verbose=2, fmg=1, extr=1), dict(verbose=1, abstol=-1.0, reltol=-1.0), dict(paraview=1, exact=0), dict(paraview=1, maxit=0), dict(paraview=1, maxlev=2, fmg=1), dict(gridfile=2, aniso=2), dict(nr_exp=2, aniso=2), dict(nr_exp=2, aniso=1), dict(nr_exp=5, aniso=5), dict(nr_exp=3, aniso=3, ajump=0.3), dict(gridfile=2, div2=1), dict(gridfile=1, paraview=1)]
 BASES = [
     dict(nr_exp=4, ntheta_exp=-1),
     dict(nr_exp=3, ntheta_exp=3, strat=1, extr=1, fmg=1, fmg_it=1, problem="g1p2a2b1"),
